@@ -27,7 +27,7 @@ CHECKS = {
  'C09': dict(cat='proof', tech='Rocq proof (CRC-32C 4-byte window theorem and seal/residue lemmas; truncation and any <=32-bit alteration of an accepted content file are rejected, on the real grammar decoder; save_atomic over all crash prefixes incl. torn writes, any number of copies) + every truncation / single-bit flip of real content files through the real loader (plain and ASan+UBSan builds) + kill at every numbered syscall of a save',
              text='Rejection theorems are about the transcribed content grammar (tied to the C loader on ~20000 mutants per run) and the save protocol model (tied call by call to the syscall log); memory safety of the C loader itself is only tested with sanitizers, not proved.',
              ref='4/C09', note='As TB; additionally: memory safety is TESTED (ASan+UBSan on exhaustive truncation/bit-flip sets), not proved; file-system assumptions: rename atomic, completed calls persist across process death (no power-loss model).'),
- 'C13': dict(cat='proof', tech='Rocq proof (inductive invariant of the io.c slot-ring transition system for all n>=3, R>=1, W>=0, all position lists: buffer ownership, stripe order, no deadlock, termination measure; n=2 deadlock witness) + trace inclusion of real runs via the SNAPRAID_VERIF hook under seeded schedule perturbation + cache-depth differential',
+ 'C13': dict(cat='proof', tech='Rocq proof (inductive invariant of the io.c slot-ring transition system for all n>=3, R>=1, W>=0, all position lists: buffer ownership, stripe order, no deadlock, termination measure; n=2 deadlock witness; a stop/restart at the next block keeps every stripe exactly once and in order across ring sessions) + trace inclusion of real runs via the SNAPRAID_VERIF hook under seeded schedule perturbation + cache-depth differential',
              text='The ring protocol is proved for all parameters and schedules on a transcription of io.c; every recorded event of hundreds of perturbed real runs is replayed by the extracted step function; parity/content bytes and error tag multisets are compared across cache depths 1..128. The pthread runtime, memory model and scan threads are outside the model (TSan run in the thorough tier is a test).',
              ref='4/C13'),
  'C12': dict(cat='proof', tech='Rocq proof on an effect-type model of the command dispatcher (allowed effect sets per command, sync never writes data, fix never writes content and reports what it writes, refusals change nothing) + run-by-run comparison with the syscall write-set log of the LD_PRELOAD shim and whole-array byte/mtime/inode snapshots',
@@ -45,7 +45,7 @@ CHECKS = {
  'C19': dict(cat='proof', tech='Rocq proof (identity rules, inherited hashes give REP never BLK, REP/CHG verified in the very step that makes them BLK, REP mismatch refuses the stripe, pre-hash leaves parity untouched, --force-nocopy, fetch verified by hash) + decoy scenarios on the real binary with parity snapshots and an independent hash of every BLK block',
              text='Theorems on the scan/sync/pre-hash models; decoys (same name, size, time-stamp, other bytes) on the same disk, other disks and import directories must never be recorded synced without having been read, and with -h no parity byte may change.',
              ref='4/C19'),
- 'C07': dict(cat='proof', tech='Rocq proof on an effect-trace model of sync (crash states = prefixes incl. torn writes; every crash state keeps a loadable content whose synced stripes have valid parity, under "single-thread or no autosave" - refuted with a witness for threaded autosave; resume converges; adds-only recoverability per intact level) + fault enumeration on the real binary: kill before/after/short at every numbered state-changing syscall of sync and fix, signals at every parity write',
+ 'C07': dict(cat='proof', tech='Rocq proof on an effect-trace model of sync (crash states = prefixes incl. torn writes; every crash state keeps a loadable content whose synced stripes have valid parity, for every io mode, autosave point, stop and crash point (the autosave drains the writers since the repair 6a618a2); resume converges; adds-only recoverability per intact level) + fault enumeration on the real binary: kill before/after/short at every numbered state-changing syscall of sync and fix, signals at every parity write',
              text='The crash-state invariant is proved on the trace model (content save atomic by C09, parity writes per level in order) and refuted for the threaded autosave (open finding); every kill point of real runs is then judged by independent oracles (data snapshot, loadable content, independent parity check, resumed sync, recovery from lost devices). Kernel/power-loss semantics are not modelled.',
              ref='4/C07', note='As TB; additionally: process-death semantics only (completed syscalls persist; no power-loss or write-reordering model); a torn block-sized pwrite with a single parity level is measured, not judged (Q-C07).'),
  'C08': dict(cat='proof', tech='Rocq proof (read faults in sync and scrub leave the stripe unsynced or bad with a failing status; error limit; exit status failing for every write fault and writer schedule; every failed parity write leaves its stripe marked bad with a failing status, for every writer schedule, since the repair 0ecd44a) + fault enumeration: EIO/ENOSPC at every pread/pwrite index with cache depths 1..128, compared with the extracted writer-accounting model',
@@ -60,7 +60,7 @@ CHECKS = {
  'C05': dict(cat='proof', tech='Rocq proof: fix_never_wrong stated in full, refuted by concrete witness histories (vm_compute) for the open findings b, c, d; proved under PastHashInv (partial); regression theorem for the repaired F-C05a + histories with a version store on the real binary, wrong results attributed to a finding only by an independent diagnosis',
              text='The full-strength statement is false on this tree in three registered ways (printed as KNOWN-FINDING); the partial theorem names the invariant repair relies on. Generated histories (interrupted/partial syncs, re-used positions, any damage, filters) are judged by the harness version store: every file must equal a stored version matching its record or be reported unrecoverable.',
              ref='4/C05'),
- 'C03': dict(cat='proof', tech='Rocq proof (MDS of the 6x251 Cauchy and 3x251 power matrices by polynomial root counting in MathComp; Gauss-Jordan without pivoting never meets a zero pivot; combination enumerator and sorting networks; the six SSSE3/AVX2 decoders of x86.c TRANSLATED on every run and proved equal to the recovery expression by a verified reflective checker) + unit correspondence of raid_rec/raid_data/raid_check/raid_scan in all decoder families against the known original stripe',
+ 'C03': dict(cat='proof', tech='Rocq proof (MDS of the 6x251 Cauchy and 3x251 power matrices by polynomial root counting in MathComp; Gauss-Jordan without pivoting never meets a zero pivot; combination enumerator and sorting networks; the six SSSE3/AVX2 decoders of x86.c and the four portable byte-loop decoders of int.c TRANSLATED on every run and proved equal to the recovery expression by verified reflective checkers) + unit correspondence of raid_rec/raid_data/raid_check/raid_scan in all decoder families against the known original stripe',
              text='All 3.8e11 minors are settled by theorems, not enumeration; the decoder/validator models are executed against the real raid/*.c (int8, ssse3, avx2, dispatcher) on exhaustive small geometries and boundary-aimed large ones, the oracle being the original stripe.',
              ref='4/C03'),
  'C02': dict(cat='proof', tech='Rocq proof (tables regenerated from tables.c = closed forms; GF(2^8) field laws; 32/64-bit SWAR lemmas; portable generator models = matrix product for all nd<=251; the 10 portable generators of int.c/intz.c and the gf.h helpers TRANSLATED on every run and proved by a verified abstract interpreter; the 20 SIMD generators of x86.c/x86z.c TRANSLATED on every run into a deep-embedded program and proved by a verified reflective checker) + unit correspondence of all 31 exported variants and of the extracted SIMD interpreter against the silicon',
